@@ -399,6 +399,10 @@ def get_parser(node, parse_name):
     """
     if parse_name in (None, "infer"):
         parse_name: str = infer(node)
+    if parse_name in frozenset(("argparse", "argparse_ast", "argparse_function")):
+        return getattr(
+            import_module("cdd.argparse_function.parse"), "argparse_ast"
+        )
     parse_name: str = {
         "class": "class_",
         "sqlalchemy_hybrid": "sqlalchemy",
